@@ -18,7 +18,8 @@ ID = "C06"
 LEVEL = "exploration"
 RULE = ("random descriptions over 1-3 variables (all selected; entity() for one variable, set_of() otherwise; joins, "
         "negation, predicates; depth<=3), rejection-sampled on the oracle count so that the three outcome classes "
-        "{0, 1, >=2 solutions} are about equally frequent; each description is evaluated three times with the(...) and "
+        "{0, 1, >=2 solutions} are about equally frequent; a quarter of the cases range over objects with VALUE equality "
+        "of which several are equal to each other (solutions are counted by identity); each description is evaluated three times with the(...) and "
         "once with an(...), under ambient mode none / query / rule, caching on and off. Non-trivial: every case (each "
         "has a definite expected outcome class); distinct by structural hash; classes are counted separately.")
 LEVEL_TEXT = ("Reference-model monitoring of the outcome class and value of the(...).evaluate() against the oracle count and "
@@ -36,6 +37,7 @@ def plan(tier, seed):
 def floors(tier):
     return {"distinct_nontrivial": 500, "cls:n=0": 300, "cls:n=1": 300, "cls:n>=2": 300, "cls:form:entity": 200,
             "cls:form:set_of": 300, "cls:ambient:query": 100, "cls:ambient:rule": 100, "cls:caching_off": 200,
+            "cls:equal_valued_distinct_objects": 300, "cls:solutions_equal_by_value": 50,
             "re:The(@.*)?\\.enter": 0}
 
 
@@ -49,10 +51,17 @@ def cases(spec, ctx):
         rng = ctx.rng(spec["sub"], i)
         want = i % 3
         best = None
+        eqobj = rng.random() < 0.25
         for _ in range(40):
             nv = rng.choice([1, 1, 2, 2, 3])
             case = multi.gen_case(rng, nvars=(nv, nv), depth=(1, 3), sel_mode="all", allow_expr_sel=False,
                                   world_kw={"np_": (1, 3), "nq": (1, 3)})
+            if eqobj:
+                # a variable over objects with VALUE equality, some of them equal to each other: the number of solutions
+                # counts distinct objects, not distinct values
+                D.add_equal_valued_objects(rng, case["world"])
+                case["kinds"][rng.randrange(nv)] = "E"
+                case["cond"] = C.gen_cond(rng, case["kinds"], rng.randint(0, 2), {"p_leaf": 0.3})
             n = _count(case, D.build_world(case["world"]))
             best = case
             if min(n, 2) == want:
@@ -113,6 +122,10 @@ def check_case(case, ctx):
     ctx.cls("cls:ambient:" + case["ambient"])
     ctx.cls("cls:caching_on" if case["caching"] else "cls:caching_off")
     ctx.cls(f"cls:nvars={len(case['kinds'])}")
+    if "E" in case["kinds"]:
+        ctx.cls("cls:equal_valued_distinct_objects")
+        if n >= 2 and len({repr(sorted(vars(o).items(), key=str)) for o in world["E"]}) < len(world["E"]):
+            ctx.cls("cls:solutions_equal_by_value")
     ctx.nontrivial()
     outs, an_rows = run(case, world)
     want = ["none"] if n == 0 else ["multiple"] if n >= 2 else ["value", list(exp_rows[0])]
